@@ -810,6 +810,11 @@ def hue_modulo(ctx):
                     return True
             if isinstance(n, ast.Call) and isinstance(n.func, ast.Attribute) and n.func.attr == "normalized":
                 return True
+            # h - floor(h) is the same reduction (int(h) is not: it truncates toward zero, so negative hues stay negative)
+            if isinstance(n, (ast.BinOp, ast.AugAssign)) and isinstance(n.op, ast.Sub):
+                sub = n.right if isinstance(n, ast.BinOp) else n.value
+                if isinstance(sub, ast.Call) and ast.unparse(sub.func) in ("floor", "math.floor"):
+                    return True
         return False
 
     in_callee = any(has_mod(s, hp) for s in fn.body if not isinstance(s, ast.FunctionDef))
